@@ -159,13 +159,14 @@ Print Assumptions C13_result_core.
 
 (* enum: the rendering (configurations joined by ';', literals by ' ') of the library's
    enumerate with the cursor, amount = the limit, by default min(#models, 1000); saturated only
-   when cursor + limit exceeds usize *)
+   when cursor + limit exceeds usize.  The cursor is the one of the SET of assumed literals
+   (enum_key = sorted by feature, repeated literals removed: repair F19 of finding K12; C06_key_is_set) *)
 Theorem C13_result_enum : forall CC (X : extops CC) C n dbg (st : sstate CC) line chs rq,
   wf_sstate C n st -> ext_total X ->
   parse_request X V1 dbg st line = ROk rq -> r_cmd rq = "enum"%string ->
   enum_safe (dd st) (cur st) (sc st) (p_params (r_args rq)) ->
   exists am,
-    (cur_get (cur st) (sort_abs (p_params (r_args rq))) + enum_limit (dd st) (r_args rq) <= u64_max ->
+    (cur_get (cur st) (enum_key (p_params (r_args rq))) + enum_limit (dd st) (r_args rq) <= u64_max ->
      am = enum_limit (dd st) (r_args rq)) /\
     handle_stream_msg X V1 dbg st line chs =
     (let '(s', c', r) := enumerate (dd st) (p_params (r_args rq)) am (cur st) (sc st) in
